@@ -54,6 +54,38 @@ def pairs(D):
     return out
 
 
+def documented_symbols(D):
+    """linear part of every concrete semi-linear stepper as documented in its class docstring (all flag rows):
+    (class, ctor kwargs, [symbol per operator channel] as function of the derivative symbols)"""
+    nu, xi, ze, b = S("nu"), S("xi"), S("ze"), S("b")
+    lap = lambda Dv: sum((d * d for d in Dv), Poly())
+    quart = lambda Dv: sum((d**4 for d in Dv), Poly())
+    out = [("Burgers", dict(diffusivity=nu), lambda Dv: [nu * lap(Dv)])]
+    for adv, dif in itertools.product((False, True), repeat=2):
+        def kdv(Dv, adv=adv, dif=dif):
+            disp = -xi * sum(Dv, Poly()) * lap(Dv) if adv else -xi * sum((d**3 for d in Dv), Poly())
+            hyp = -ze * lap(Dv) ** 2 if dif else -ze * quart(Dv)
+            return [nu * lap(Dv) + disp + hyp]
+        out.append(("KortewegDeVries", dict(diffusivity=nu, dispersivity=xi, hyper_diffusivity=ze, advect_over_diffuse=adv, diffuse_over_diffuse=dif), kdv))
+    p1, p2 = S("p1"), S("p2")
+    for nm in ("KuramotoSivashinsky", "KuramotoSivashinskyConservative"):
+        out.append((nm, dict(second_order_scale=p1, fourth_order_scale=p2), lambda Dv: [-p1 * lap(Dv) - p2 * quart(Dv)]))
+    lam = S("lam")
+    if D == 2:
+        for nm in ("NavierStokesVorticity", "KolmogorovFlowVorticity"):
+            out.append((nm, dict(diffusivity=nu, drag=lam), lambda Dv: [nu * lap(Dv) + lam]))
+    if D == 3:
+        for nm in ("NavierStokesVelocity", "KolmogorovFlowVelocity"):
+            out.append((nm, dict(diffusivity=nu, drag=lam), lambda Dv: [nu * lap(Dv) + lam]))
+    r, c1, c3, g, k = S("r"), S("c1"), S("c3"), S("g"), S("k")
+    out.append(("FisherKPP", dict(diffusivity=nu, reactivity=r), lambda Dv: [nu * lap(Dv) + r]))
+    out.append(("AllenCahn", dict(diffusivity=nu, first_order_coefficient=c1), lambda Dv: [nu * lap(Dv) + c1]))
+    out.append(("CahnHilliard", dict(diffusivity=nu, gamma=g, first_order_coefficient=c1), lambda Dv: [nu * lap(Dv) * (c1 - g * lap(Dv))]))
+    out.append(("GrayScott", dict(diffusivity_1=S("n1"), diffusivity_2=S("n2")), lambda Dv: [S("n1") * lap(Dv), S("n2") * lap(Dv)]))
+    out.append(("SwiftHohenberg", dict(reactivity=r, critical_number=k), lambda Dv: [r - (k + lap(Dv)) ** 2]))
+    return out
+
+
 FAMILIES = [
     # (General, Normalized, Difficulty, {general kw -> normalized kw}, {normalized kw -> (difficulty kw, extractor)}, flags)
     ("GeneralLinearStepper", "NormalizedLinearStepper", "DifficultyLinearStepper", {"linear_coefficients": "normalized_linear_coefficients"}, {"normalized_linear_coefficients": ("linear_difficulties", "lin")}),
@@ -90,6 +122,7 @@ def snapshot(f):
 def run(tier="quick", only_key=None):
     ck = Check(PROP, LEVEL, tier, only_key)
     ck.rule("specific-vs-generic", "a concrete stepper and the generic stepper with the documented coefficient list have equal channel count, dt, linear symbol, nonlinear term (incl. mask) and integrator")
+    ck.rule("linear-symbol-doc", "the linear part of every concrete semi-linear stepper equals its documented equation for every flag row (incl. the spatially mixing variants that have no generic equivalent)")
     ck.rule("normalized", "Normalized* == General* on (L=1, dt=1) with the coefficients passed through")
     ck.rule("difficulty", "Difficulty* == Normalized* after the documented extraction (num_spatial_dims, num_points, maximum_absolute forwarded)")
     ck.rule("conversion-formula", "normalize/denormalize/reduce/extract functions equal their documented formulas")
@@ -132,6 +165,21 @@ def run(tier="quick", only_key=None):
                         ck.fail("specific-vs-generic", key, loc(sc.find("__init__")), f"{sn} and {gn} with the documented coefficient map differ in: {', '.join(diff)}", code=str(a)[:3000], ref=str(bb)[:3000])
                     else:
                         ck.ok("specific-vs-generic", key, form=a)
+        # ---- documented linear symbols of the concrete semi-linear steppers (all flag rows)
+        from specs import common as C
+
+        for D in (1, 2, 3):
+            for nm, kw, sym in documented_symbols(D):
+                cls_ = get(nm)
+                key = f"{cls_.qual}#linear-symbol#D={D},Nparity={parity},{ {k_: v for k_, v in kw.items() if isinstance(v, bool)} }"
+                try:
+                    f = catalog.stepper_forms(it, cls_, D, parity, **kw)
+                except RepoRaise as e:
+                    ck.fail("linear-symbol-doc", key, f"{e.file}:{getattr(e.node, 'lineno', '?')}", f"constructor raises {e.exc_name}")
+                    continue
+                ref = [as_poly(x) for x in sym(C.deriv(D, L))]
+                ck.compare("linear-symbol-doc", key, loc(cls_.find("_build_linear_operator")), list(f["L"].data), ref, what="linear symbol differs from the documented equation")
+                rows += 1
         # ---- (b)(c)(e) families
         tuple_len = 5
         for gname, nname, dname, g2n, n2d in FAMILIES:
